@@ -466,16 +466,21 @@ def _seed(st, g, tier, only=None):
     ref = bn_from_desc(d)
     lab = Labeling(3, ref.card, "str", None, "str")
 
+    def safe(fn):
+        try:
+            return fn()
+        except Exception as ex:  # a sampler that raises on a valid model is itself a violation (reported below)
+            return "EXC " + repr(ex)[:160]
+
     def answers():
         out = {}
         for seed in (0, 1, 2):
             m = make_bn(ref, lab)
-            s = BayesianModelSampling(m)
-            out[f"fs{seed}"] = s.forward_sample(size=5, seed=seed, show_progress=False, n_jobs=1).astype(str).values.tolist()
-            out[f"rs{seed}"] = BayesianModelSampling(m).rejection_sample(evidence=[State("C", "c1")], size=4, seed=seed, show_progress=False).astype(str).values.tolist()
-            out[f"lw{seed}"] = BayesianModelSampling(m).likelihood_weighted_sample(evidence=[State("A", "a0")], size=4, seed=seed, show_progress=False, n_jobs=1).round(9).astype(str).values.tolist()
-            out[f"gb{seed}"] = GibbsSampling(m).sample(size=5, seed=seed).astype(str).values.tolist()
-            out[f"sim{seed}"] = m.simulate(n_samples=4, seed=seed, show_progress=False).astype(str).values.tolist()
+            out[f"fs{seed}"] = safe(lambda: BayesianModelSampling(m).forward_sample(size=5, seed=seed, show_progress=False, n_jobs=1).astype(str).values.tolist())
+            out[f"rs{seed}"] = safe(lambda: BayesianModelSampling(m).rejection_sample(evidence=[State("C", "c1")], size=4, seed=seed, show_progress=False).astype(str).values.tolist())
+            out[f"lw{seed}"] = safe(lambda: BayesianModelSampling(m).likelihood_weighted_sample(evidence=[State("A", "a0")], size=4, seed=seed, show_progress=False, n_jobs=1).round(9).astype(str).values.tolist())
+            out[f"gb{seed}"] = safe(lambda: GibbsSampling(m).sample(size=5, seed=seed).astype(str).values.tolist())
+            out[f"sim{seed}"] = safe(lambda: m.simulate(n_samples=4, seed=seed, show_progress=False).astype(str).values.tolist())
         return out
     if os.environ.get("C07_SEED_WORKER"):
         print("ANSWERS " + json.dumps(answers()))
@@ -486,6 +491,8 @@ def _seed(st, g, tier, only=None):
     st.compared += 15
     for k in a:
         st.nt(k)
+        if isinstance(a[k], str) and a[k].startswith("EXC "):
+            st.violation("seed-reproducibility", "exception", {"g": g, "call": ["seed", k]}, a[k], None)
         if a[k] != b[k]:
             st.violation("seed-reproducibility", "differs-between-engines", {"g": g, "call": ["seed", k]}, a[k], b[k])
     env = dict(os.environ, C07_SEED_WORKER="1")
